@@ -396,3 +396,45 @@ Proof.
   rewrite !skipn_app_exact by apply le_enc_length.
   replace (plen <=? 32) with true by (symmetry; apply N.leb_le; exact Hp). reflexivity.
 Qed.
+
+(* ================================================================== Model vs acceptor (refinement inside the guard) *)
+From Verif Require Import Model.LayoutCheck.
+
+Lemma l_eqb_refl a : l_eqb a a = true.
+Proof. induction a as [|x a IH]; cbn; [reflexivity|]. rewrite N.eqb_refl. exact IH. Qed.
+Lemma ll_eqb_refl a : ll_eqb a a = true.
+Proof. induction a as [|x a IH]; cbn; [reflexivity|]. rewrite l_eqb_refl. exact IH. Qed.
+
+Lemma layout_ok_xfer p : layout_ok p = true -> xfer_ok false p = true.
+Proof.
+  unfold layout_ok, xfer_ok. rewrite !andb_true_iff, !Nat.eqb_eq. intros H.
+  repeat match goal with X : _ /\ _ |- _ => destruct X end. split; [lia|assumption].
+Qed.
+
+(* every value a correct pair can carry: the Model's own output is accepted (write direction) *)
+Theorem model_put_accepted p vs : layout_ok p = true -> fits (pgo p) vs ->
+  accept tt (OPut false p vs) (snd (fst (step tt (OPut false p vs)))) = inl tt.
+Proof.
+  intros H Hf. cbn [step fst snd accept]. rewrite (layout_ok_xfer p H). cbn [b2n pair_ok].
+  rewrite H, (layout_ok_write p H vs Hf), ll_eqb_refl, (layout_ok_size p H vs Hf), Nat.eqb_refl. reflexivity.
+Qed.
+
+(* every byte string: the Model's own read-back is accepted *)
+Theorem model_get_accepted p bs : layout_ok p = true ->
+  accept tt (OGet false p bs) (snd (fst (step tt (OGet false p bs)))) = inl tt.
+Proof.
+  intros H. cbn [step fst snd accept]. rewrite (layout_ok_xfer p H). cbn [b2n pair_ok].
+  rewrite H, (layout_ok_read p H bs), ll_eqb_refl. reflexivity.
+Qed.
+
+(* and a pair that is not ok is rejected whatever was observed: the monitor cannot miss a bad declaration *)
+Theorem bad_pair_rejected p vs r : layout_ok p = false -> accept tt (OPut false p vs) r = inr CL_WRITE.
+Proof.
+  intros H. cbn [accept pair_ok]. rewrite H.
+  destruct r as [|[|ok [|? ?]] [|bs [|? ?]]]; reflexivity.
+Qed.
+
+Lemma all_pairs_ok_in ps p : all_pairs_ok ps = true -> In p ps -> is_record p = false -> layout_ok p = true.
+Proof.
+  unfold all_pairs_ok. rewrite forallb_forall. intros H Hin Hr. specialize (H p Hin). unfold pair_ok in H. rewrite Hr in H. exact H.
+Qed.
